@@ -211,6 +211,20 @@ pub fn run(a: &Args) -> Batch {
                 what.push(format!("shade {} tilt {:.2} azimuth {:.2}", sh.name, ti, az));
             }
         }
+        // ceilings taken from the space outline given an azimuth of their own: the outline must not move
+        for w in d.walls.iter() {
+            if w.location.as_deref() != Some("TOP") || w.polygon.is_some() || !r.chance(1, 2) {
+                continue;
+            }
+            let ang = r.pick(&EXACT).0;
+            for ty in ["ROOF", "EXTERIOR-WALL", "INTERIOR-WALL", "UNDERGROUND-WALL"] {
+                if let Some(t) = set_attr(&bdl, &w.name, ty, "AZIMUTH", &format!("{:.6}", ang)) {
+                    bdl = t;
+                    what.push(format!("ceiling {} azimuth {:.2}", w.name, ang));
+                    break;
+                }
+            }
+        }
         if what.is_empty() {
             continue;
         }
@@ -416,7 +430,7 @@ pub fn run(a: &Args) -> Batch {
         agree: "agree_C03".into(),
         cases,
         impl_findings: vec![],
-        rule: "projects = the shipped .ctehexml projects + variants with the building deviation set to an exact-trigonometry angle (multiples of 90, 3-4-5, 5-12-13, 7-24-25 triangles) or a random tenth of a degree, spaces offset within the building, spaces turned within the building, rectangular shades re-tilted (0, 90, 180 and 3-4-5 angles) and re-oriented; per converted project: every wall on an edge of its space outline (4 corners through WallGeom::to_global_coords_matrix + outward normal), every floor / ceiling taken from the outline, every wall / roof given by its own polygon (all corners), every wall / slab area, every window (offset, size, setback), every rectangular shade (4 corners) and every shade given by vertices; per shipped project the same project with its deviation increased by an exact angle: positions, azimuths, areas, U-values, K, n50, volumes. Angles that are not exact carry an interval certificate that the (cos, sin) pair is right to 1e-7. non-trivial = the building is turned or the space offset".into(),
+        rule: "projects = the shipped .ctehexml projects + variants with the building deviation set to an exact-trigonometry angle (multiples of 90, 3-4-5, 5-12-13, 7-24-25 triangles) or a random tenth of a degree, spaces offset within the building, spaces turned within the building, rectangular shades re-tilted (0, 90, 180 and 3-4-5 angles) and re-oriented, ceilings taken from the space outline given an azimuth of their own; per converted project: every wall on an edge of its space outline (4 corners through WallGeom::to_global_coords_matrix + outward normal), every floor / ceiling taken from the outline, every wall / roof given by its own polygon (all corners), every wall / slab area, every window (offset, size, setback), every rectangular shade (4 corners) and every shade given by vertices; per shipped project the same project with its deviation increased by an exact angle: positions, azimuths, areas, U-values, K, n50, volumes. Angles that are not exact carry an interval certificate that the (cos, sin) pair is right to 1e-7. non-trivial = the building is turned or the space offset".into(),
         stats: json!({"projects": projects.len(), "variants": nvar, "not_converted": not_converted, "cases_by_kind": st}),
     }
 }
